@@ -439,6 +439,14 @@ def Crossed {α : Type} (layers : List (Arr2 α)) (l0 s0 l1 s1 : Nat) : Prop :=
   ∀ (i : Nat) (l : Arr2 α), layers[i]? = some l →
     l.rows = (if i % 2 = 0 then l0 else l1) ∧ l.cols = (if i % 2 = 0 then s0 else s1)
 
+/-- a stack with the lines of a crossed stack whose layers may differ in length: even layers have `l0` lines, odd layers
+`l1`, and EVERY layer holds the warm-up `w` and the samples the reconstruction reads from it (`l1 * M` for even layers,
+`l0 * M` for odd ones) - "s exceeding the needed length by any amount", layer by layer -/
+def Ragged {α : Type} (layers : List (Arr2 α)) (l0 l1 M w : Nat) : Prop :=
+  2 ≤ layers.length ∧
+  ∀ (i : Nat) (l : Arr2 α), layers[i]? = some l →
+    l.rows = (if i % 2 = 0 then l0 else l1) ∧ w + (if i % 2 = 0 then l1 else l0) * M ≤ l.cols
+
 /-- effective offset list of the layers: a zero is prepended when the first offset is not zero -/
 def effList (offs : List Nat) : List Nat :=
   match offs with
@@ -605,6 +613,301 @@ def zeroPx (n : Nat) : List Int := List.replicate n 0
 
 /-- field `e` of a structured array: `array[name]` for the `e`-th name -/
 def fieldOf (e : Nat) (px : List Int) : Int := px.getD e 0
+
+/-! ## the `SRRLaser` object between calls: buffers, views, `get` with calibration
+
+`SRRLaser.get` is the one method of the anchored code that WRITES into an array: under `calibrate` with no element it
+runs `data[name] = self.calibration[name].calibrate(data[name])` for every field, in place.  Whether that is harmless
+depends on what the local `data` refers to: a private copy (`self.data[layer].copy()`, then perhaps a `.T` view of that
+copy), the fresh array `krisskross()` built - or memory the object keeps.  So the object is modelled with identities:
+a heap of 2-d buffers, `self.data` a list of buffer numbers, a 2-d array a buffer seen directly or through `.T`.
+The mechanism `Laser.get` follows the statements of the method (copy = a new buffer, `.T` = a view, field assignment =
+a write through the view); the specification `getSpec` is a function of the stored layers, the calibrations and the
+configuration alone and returns the store as it was.  `Calibration.calibrate` is any function `ρ → ρ` per element
+(`Calib.apply` below for the real one).  An unstructured result (`get(element)`) is shown as an image of 1-tuples.
+`extent` is not modelled (C10), negative layer numbers are not modelled. -/
+
+/-- `Calibration.calibrate` in exact arithmetic: the data itself when intercept = 0 and gradient = 1, else
+`(x - intercept) / gradient` -/
+structure Calib where
+  intercept : Rat
+  gradient : Rat
+  deriving DecidableEq, Repr
+
+def Calib.apply (k : Calib) (x : Rat) : Rat :=
+  if k.intercept = 0 ∧ k.gradient = 1 then x else (x - k.intercept) / k.gradient
+
+/-- a record of a dtype with `n` fields after `rec[name_k] = v` -/
+def setField {ρ : Type} (z : ρ) (n k : Nat) (v : ρ) (px : List ρ) : List ρ :=
+  (List.range n).map (fun j => if j = k then v else px.getD j z)
+
+/-- one turn of the calibration loop on one record: field `k` through `g` -/
+def stepPx {ρ : Type} (z : ρ) (n k : Nat) (g : ρ → ρ) (px : List ρ) : List ρ :=
+  setField z n k (g (px.getD k z)) px
+
+/-- the arguments of `SRRLaser.get` that are modelled -/
+structure GetArgs where
+  element : Option String
+  calibrate : Bool
+  flat : Bool
+  layer : Option Nat
+  deriving DecidableEq, Repr
+
+/-- position of a field name (`data[element]`: ValueError for a name that is not there) -/
+def fieldIdx? (names : List String) (nm : String) : Option Nat :=
+  if names.idxOf nm < names.length then some (names.idxOf nm) else none
+
+/-- an `SRRLaser`: every 2-d buffer that exists (`heap`, a buffer is known by its position), `self.data` (one buffer
+per layer), the field names of the layers' dtype, `self.calibration`, `self.config` -/
+structure Laser (ρ : Type) where
+  heap : List (Arr2 (List ρ))
+  data : List Nat
+  names : List String
+  cal : List (String × (ρ → ρ))
+  cfg : SrrConfig
+
+/-- a 2-d array object: buffer `id`, seen through `.T` when `t` -/
+def readView {ρ : Type} (heap : List (Arr2 (List ρ))) (id : Nat) (t : Bool) : Option (Arr2 (List ρ)) :=
+  (heap[id]?).map (fun b => if t then b.T else b)
+
+/-- `view[name_k] = vals` (`vals` has the shape of the view): a write into the buffer behind the view -/
+def writeField {ρ : Type} (z : ρ) (n : Nat) (heap : List (Arr2 (List ρ))) (id : Nat) (t : Bool) (k : Nat)
+    (vals : Arr2 ρ) : List (Arr2 (List ρ)) :=
+  match heap[id]? with
+  | some b => heap.set id { b with get := fun r c => setField z n k (if t then vals.get c r else vals.get r c) (b.get r c) }
+  | none => heap
+
+/-- `for name in data.dtype.names: data[name] = self.calibration[name].calibrate(data[name])` on a 2-d view; `k` counts
+the fields done.  `none`: KeyError (no calibration under that name). -/
+def calLoopView {ρ : Type} (z : ρ) (n : Nat) (cal : List (String × (ρ → ρ))) (id : Nat) (t : Bool) :
+    List String → Nat → List (Arr2 (List ρ)) → Option (List (Arr2 (List ρ)))
+  | [], _, h => some h
+  | nm :: rest, k, h =>
+    match cal.lookup nm, readView h id t with
+    | some g, some v =>
+      calLoopView z n cal id t rest (k + 1) (writeField z n h id t k (v.map (fun px => g (px.getD k z))))
+    | _, _ => none
+
+/-- the same loop on the 3-d array `krisskross()` returned (a local value: nothing else refers to it) -/
+def calLoop3 {ρ : Type} (z : ρ) (n : Nat) (cal : List (String × (ρ → ρ))) :
+    List String → Nat → Arr3 (List ρ) → Option (Arr3 (List ρ))
+  | [], _, a => some a
+  | nm :: rest, k, a =>
+    match cal.lookup nm with
+    | some g => calLoop3 z n cal rest (k + 1) (a.map (stepPx z n k g))
+    | none => none
+
+/-- the layers `self.data` refers to (`none`: a dangling buffer number) -/
+def Laser.layers? {ρ : Type} (o : Laser ρ) : Option (List (Arr2 (List ρ))) :=
+  o.data.mapM (fun id => o.heap[id]?)
+
+/-- `np.mean(data[name], axis=2)` for the first `w` fields (`structured[name] = …` for every name; `w = 1` for an
+unstructured array); `mean` stands for NumPy's mean of the values along the layer axis -/
+def meanPx {ρ : Type} (z : ρ) (mean : List ρ → ρ) (w : Nat) (a : Arr3 (List ρ)) : Arr2 (List ρ) :=
+  { rows := a.rows, cols := a.cols,
+    get := fun r c => (List.range w).map (fun j => mean ((List.range a.depth).map (fun i => (a.get r c i).getD j z))) }
+
+/-- **`SRRLaser.get(element, calibrate, flat=…, layer=…)` as the code runs** on the object: the object afterwards (its
+heap has grown by the copy and the copy may have been written to) and the array returned.
+`none`: IndexError (no such layer), ValueError (no such element / the reconstruction fails), KeyError (no calibration). -/
+def Laser.get {ρ : Type} (z : ρ) (mean : List ρ → ρ) (o : Laser ρ) (a : GetArgs) :
+    Option (Laser ρ × GetOut (List ρ)) :=
+  let n := o.names.length
+  match a.layer with
+  | some i =>
+    match o.data[i]? with
+    | none => none
+    | some id =>
+      match o.heap[id]? with
+      | none => none
+      | some buf =>
+        -- `data = self.data[layer].copy()`: a new buffer; `data = data.T` for odd layers: a view of it
+        let id1 := o.heap.length
+        let heap1 := o.heap ++ [buf]
+        let t := decide (i % 2 = 1)
+        match a.element with
+        | none =>
+          -- `if calibrate: for name in data.dtype.names: data[name] = …` writes through the view
+          match (if a.calibrate then calLoopView z n o.cal id1 t o.names 0 heap1 else some heap1) with
+          | none => none
+          | some heap2 => (readView heap2 id1 t).map (fun v => ({ o with heap := heap2 }, .img v))
+        | some nm =>
+          -- `data = data[element]` (a view of one field), `data = self.calibration[element].calibrate(data)` (a new array)
+          match fieldIdx? o.names nm, readView heap1 id1 t with
+          | some k, some v =>
+            let col : Arr2 ρ := v.map (fun px => px.getD k z)
+            let res : Option (Arr2 ρ) := if a.calibrate then (o.cal.lookup nm).map (fun g => col.map g) else some col
+            res.map (fun c => ({ o with heap := heap1 }, .img (c.map (fun x => [x]))))
+          | _, _ => none
+  | none =>
+    -- `data = self.krisskross()`: a fresh 3-d array
+    match o.layers? with
+    | none => none
+    | some ls =>
+      match krisskross (List.replicate n z) o.cfg o.cfg.magnification ls with
+      | none => none
+      | some rec3 =>
+        match a.element with
+        | none =>
+          match (if a.calibrate then calLoop3 z n o.cal o.names 0 rec3 else some rec3) with
+          | none => none
+          | some b => some (o, if a.flat then .img (meanPx z mean n b) else .stack b)
+        | some nm =>
+          match fieldIdx? o.names nm with
+          | none => none
+          | some k =>
+            let col : Arr3 ρ := rec3.map (fun px => px.getD k z)
+            let res : Option (Arr3 ρ) := if a.calibrate then (o.cal.lookup nm).map (fun g => col.map g) else some col
+            res.map (fun c =>
+              let c1 : Arr3 (List ρ) := c.map (fun x => [x])
+              (o, if a.flat then .img (meanPx z mean 1 c1) else .stack c1))
+
+/-! ### specification of a read: a function of the stored layers, the calibrations and the configuration -/
+
+/-- `[self.calibration[name] for name in names]` -/
+def lookupAll {κ : Type} (cal : List (String × κ)) : List String → Option (List κ)
+  | [] => some []
+  | n :: ns =>
+    match cal.lookup n, lookupAll cal ns with
+    | some g, some gs => some (g :: gs)
+    | _, _ => none
+
+/-- what a read does to one record: all fields or the selected one, each through its OWN calibration when `calibrate` -/
+def readPx {ρ : Type} (z : ρ) (names : List String) (cal : List (String × (ρ → ρ))) (a : GetArgs) :
+    Option (List ρ → List ρ) :=
+  match a.element with
+  | none =>
+    if a.calibrate then
+      (lookupAll cal names).map (fun gs => fun px => (List.range names.length).map (fun j => (gs.getD j id) (px.getD j z)))
+    else some id
+  | some nm =>
+    match fieldIdx? names nm with
+    | none => none
+    | some k =>
+      if a.calibrate then (cal.lookup nm).map (fun g => fun px => [g (px.getD k z)])
+      else some (fun px => [px.getD k z])
+
+/-- number of values per pixel of a read -/
+def readWidth (names : List String) (a : GetArgs) : Nat :=
+  match a.element with
+  | none => names.length
+  | some _ => 1
+
+/-- **what `get` owes**: pixel by pixel the stored layer (`layerSpec`) or the reconstruction of the stored layers, each
+record through `readPx`; with `flat` the mean over the layer axis of those records -/
+def getSpec {ρ : Type} (z : ρ) (mean : List ρ → ρ) (layers : List (Arr2 (List ρ))) (names : List String)
+    (cal : List (String × (ρ → ρ))) (cfg : SrrConfig) (a : GetArgs) : Option (GetOut (List ρ)) :=
+  match readPx z names cal a with
+  | none => none
+  | some f =>
+    match a.layer with
+    | some i => (layers[i]?).map (fun l => .img ((layerSpec l i).map f))
+    | none =>
+      (krisskross (List.replicate names.length z) cfg cfg.magnification layers).map (fun r =>
+        if a.flat then .img (meanPx z mean (readWidth names a) (r.map f)) else .stack (r.map f))
+
+/-! ### histories of one object -/
+
+/-- what a caller does to an `SRRLaser` between two observations -/
+inductive Step (ρ : Type)
+  /-- a call of `get` -/
+  | get (a : GetArgs)
+  /-- `laser.data = [...]` with new arrays, and the methods that rebuild every layer (`rename`, `add`, `remove`); a
+  structured dtype has at least one field (no names: outside the model) -/
+  | setData (layers : List (Arr2 (List ρ))) (names : List String)
+  /-- `laser.data[i] = array` (a new array) -/
+  | setItem (i : Nat) (layer : Arr2 (List ρ))
+  /-- `laser.data[i][r, c] = record`: a write into the stored layer -/
+  | write (i r c : Nat) (px : List ρ)
+  /-- a change of `laser.config` -/
+  | config (op : CfgOp)
+  /-- `laser.calibration = {...}` -/
+  | setCal (cal : List (String × (ρ → ρ)))
+
+/-- one cell of an array overwritten -/
+def _root_.Pew.Arr2.setCell {α : Type} (b : Arr2 α) (r c : Nat) (px : α) : Arr2 α :=
+  { b with get := fun r' c' => if r' = r ∧ c' = c then px else b.get r' c' }
+
+def Laser.step {ρ : Type} (z : ρ) (mean : List ρ → ρ) (o : Laser ρ) :
+    Step ρ → Option (Laser ρ × Option (GetOut (List ρ)))
+  | .get a => (o.get z mean a).map (fun p => (p.1, some p.2))
+  | .setData ls names =>
+    if names.isEmpty then none else
+    some ({ o with heap := o.heap ++ ls, data := (List.range ls.length).map (fun k => o.heap.length + k), names := names }, none)
+  | .setItem i l =>
+    if i < o.data.length then some ({ o with heap := o.heap ++ [l], data := o.data.set i o.heap.length }, none) else none
+  | .write i r c px =>
+    match o.data[i]? with
+    | none => none
+    | some id =>
+      match o.heap[id]? with
+      | none => none
+      | some b => some ({ o with heap := o.heap.set id (b.setCell r c px) }, none)
+  | .config op => some ({ o with cfg := o.cfg.apply op }, none)
+  | .setCal cal => some ({ o with cal := cal }, none)
+
+/-- a history: the object afterwards and what the calls returned, in order -/
+def Laser.run {ρ : Type} (z : ρ) (mean : List ρ → ρ) : Laser ρ → List (Step ρ) → Option (Laser ρ × List (GetOut (List ρ)))
+  | o, [] => some (o, [])
+  | o, s :: rest =>
+    match o.step z mean s with
+    | none => none
+    | some (o', out) =>
+      match Laser.run z mean o' rest with
+      | none => none
+      | some (o'', outs) => some (o'', (match out with | some x => [x] | none => []) ++ outs)
+
+/-- the specification's state: the layers as values, no identities -/
+structure Store (ρ : Type) where
+  layers : List (Arr2 (List ρ))
+  names : List String
+  cal : List (String × (ρ → ρ))
+  cfg : SrrConfig
+
+/-- the specification of a step: a call of `get` returns `getSpec` of the store and leaves the store as it is -/
+def Store.step {ρ : Type} (z : ρ) (mean : List ρ → ρ) (s : Store ρ) :
+    Step ρ → Option (Store ρ × Option (GetOut (List ρ)))
+  | .get a => (getSpec z mean s.layers s.names s.cal s.cfg a).map (fun out => (s, some out))
+  | .setData ls names => if names.isEmpty then none else some ({ s with layers := ls, names := names }, none)
+  | .setItem i l => if i < s.layers.length then some ({ s with layers := s.layers.set i l }, none) else none
+  | .write i r c px =>
+    match s.layers[i]? with
+    | none => none
+    | some b => some ({ s with layers := s.layers.set i (b.setCell r c px) }, none)
+  | .config op => some ({ s with cfg := s.cfg.apply op }, none)
+  | .setCal cal => some ({ s with cal := cal }, none)
+
+def Store.run {ρ : Type} (z : ρ) (mean : List ρ → ρ) : Store ρ → List (Step ρ) → Option (Store ρ × List (GetOut (List ρ)))
+  | s, [] => some (s, [])
+  | s, st :: rest =>
+    match s.step z mean st with
+    | none => none
+    | some (s', out) =>
+      match Store.run z mean s' rest with
+      | none => none
+      | some (s'', outs) => some (s'', (match out with | some x => [x] | none => []) ++ outs)
+
+/-- an object built from layers: one buffer per layer -/
+def Laser.load {ρ : Type} (layers : List (Arr2 (List ρ))) (names : List String) (cal : List (String × (ρ → ρ)))
+    (cfg : SrrConfig) : Laser ρ :=
+  { heap := layers, data := List.range layers.length, names := names, cal := cal, cfg := cfg }
+
+/-- the store an object stands for: the contents of the buffers `self.data` names -/
+def Laser.store {ρ : Type} (o : Laser ρ) : Store ρ :=
+  { layers := o.data.filterMap (fun id => o.heap[id]?), names := o.names, cal := o.cal, cfg := o.cfg }
+
+/-- every layer is a buffer that exists, no two layers share a buffer, the dtype has at least one field -/
+def Laser.WF {ρ : Type} (o : Laser ρ) : Prop :=
+  (∀ id ∈ o.data, id < o.heap.length) ∧ (∀ (i j id : Nat), o.data[i]? = some id → o.data[j]? = some id → i = j) ∧
+    o.names ≠ []
+
+/-- `self.calibration` after a change of the element set, as `SRRLaser.rename / remove / add` leave it (`ident` = the
+default `Calibration()`); the other changes of the stack do not touch it -/
+def calAfter {κ : Type} (ident : κ) (cal : List (String × κ)) : StackOp → List (String × κ)
+  | .rename m => cal.map (fun nk => (renameName m nk.1, nk.2))
+  | .remove names => cal.filter (fun nk => !names.contains nk.1)
+  | .add name _ _ => cal.filter (fun nk => nk.1 != name) ++ [(name, ident)]
+  | _ => cal
 
 end Srr
 end Pew
